@@ -306,7 +306,14 @@ class Ctx:
                 return None
             try:
                 # result is the last line of stdout
-                return json.loads(p.stdout.strip().splitlines()[-1])
+                res = json.loads(p.stdout.strip().splitlines()[-1])
+                if isinstance(res, dict):
+                    for w in res.get("violations", []):
+                        if isinstance(w, dict):
+                            # generic replay recipe: re-run this batch
+                            w.setdefault("replay_batch", {
+                                "module": module, "func": func, "arg": arg})
+                return res
             except Exception:
                 self.count("worker_failures")
                 self.inconclusive("worker output unparsable (%s.%s): %s" % (
@@ -361,6 +368,26 @@ class Part:
         return self.d
 
 
+def generic_replay(ctx, witness):
+    """Re-run the batch that produced the witness (same module, function and
+    arguments, hence the same seeded cases) and report what it finds."""
+    rb = witness.get("replay_batch")
+    print("replaying: %s" % str(witness.get("what", ""))[:300])
+    if not rb:
+        ctx.inconclusive("witness carries no replay recipe")
+        return
+    import importlib
+    fn = getattr(importlib.import_module(rb["module"]), rb["func"])
+    res = fn(rb["arg"])
+    if hasattr(res, "to_json"):
+        res = res.to_json()
+    ctx.merge(res)
+    same = [w for w in res.get("violations", [])
+            if w.get("kind") == witness.get("kind")]
+    print("replay reproduced %d violation(s) of kind %s" % (
+        len(same), witness.get("kind")))
+
+
 def run_check(prop, tier, replay=None):
     import importlib
     seed = int(os.environ.get("VERIF_SEED", "0") or 0)
@@ -370,7 +397,10 @@ def run_check(prop, tier, replay=None):
         if replay:
             with open(replay) as fh:
                 rep = json.load(fh)
-            mod.replay(ctx, rep["witness"])
+            if hasattr(mod, "replay"):
+                mod.replay(ctx, rep["witness"])
+            else:
+                generic_replay(ctx, rep["witness"])
         else:
             mod.main(ctx)
     except Exception:
